@@ -3,7 +3,7 @@ C14 — Index/state enumerations are bijections: every admissible state exactly 
 Model: RpylibModel/Model/Pairing.lean (anchors: rpylib/distribution/pairing.py, rpylib/tools/generic.py).
 Helper lemmas: Proofs/Lemmas/C14*.lean.
 
-Not proved here (compared / oracle-checked by harness/props/c14.py only): bijectivity of `HyperbolicPairing`.
+Model part 2: RpylibModel/Model/PairingHyperbolic.lean (anchors: pairing.py:138-192 `HyperbolicPairing`, numerical/numbers.py).
 -/
 import RpylibModel.Proofs.Lemmas.C14Fold
 import RpylibModel.Proofs.Lemmas.C14Z1d
@@ -11,6 +11,8 @@ import RpylibModel.Proofs.Lemmas.C14Lazy
 import RpylibModel.Proofs.Lemmas.C14States
 import RpylibModel.Proofs.Lemmas.C14RS
 import RpylibModel.Proofs.Lemmas.C14Frontier
+import RpylibModel.Proofs.Lemmas.C14Hyperbolic
+import RpylibModel.Proofs.Lemmas.C14History
 
 namespace Rpylib.Pairing
 
@@ -363,5 +365,182 @@ theorem rs_frontier_bound_counterexample :
     (inBox 1 [3, 3, 3] [-1, 0, 0] = true ∧ zdPair rsPair 1 [-1, 0, 0] = 25 ∧
       maxFrontier (zdPair rsPair 1) 1 [3, 3, 3] = 20) := by decide
 
+
+/-! ## 9. `HyperbolicPairing` (pairing.py:138-192; numbers.py `a_n`, `upper_bound_a_n`)
+
+The model `hypPair` / `hypProj` uses `a_n` as coded (`aN`, the `O(√n)` closed form), the exact inverse `upperBound` of
+`a_n` (the code's float bracket + bisection is modelled by its exact result, as `_integer_root` is), the trial-division
+factorisation `factor` (for `sympy.factorint`) and `mult` (for `sympy.multiplicity`). -/
+
+/-- **Dirichlet's hyperbola method**: `a_n(n)` as coded, `2 Σ_{k≤⌊√n⌋} ⌊n/k⌋ - ⌊√n⌋²`, is `Σ_{k≤n} ⌊n/k⌋` -/
+theorem aN_hyperbola (n : Nat) : aN n = ∑ k ∈ Finset.Icc 1 n, n / k := aN_eq_sum n
+
+/-- `a_n` is the divisor summatory function: its increments are the divisor counts, `a_n(0) = 0` -/
+theorem aN_divisor_summatory (n : Nat) :
+    aN 0 = 0 ∧ aN (n + 1) = aN n + ((Finset.Icc 1 (n + 1)).filter (fun k => k ∣ n + 1)).card :=
+  ⟨aN_zero, aN_succ n⟩
+
+/-- `upper_bound_a_n(z)` (exact result) is the unique `n ≥ 1` with `a_n(n-1) ≤ z < a_n(n)` -/
+theorem upperBound_exact (z : Nat) :
+    (1 ≤ upperBound z ∧ aN (upperBound z - 1) ≤ z ∧ z < aN (upperBound z)) ∧
+    ∀ n, 1 ≤ n → aN (n - 1) ≤ z → z < aN n → upperBound z = n :=
+  ⟨upperBound_spec z, fun n hn h1 h2 => upperBound_unique z n hn h1 h2⟩
+
+/-- the trial division is the prime factorisation with strictly increasing primes (`sorted(factorint(n).items())`) -/
+theorem factor_is_factorisation (n : Nat) (hn : 1 ≤ n) : GoodF (factor n) ∧ nOf (factor n) = n := factor_spec n hn
+
+/-- **mixed radix = divisors**: for a factorisation `fs` (increasing primes) the mixed-radix digits of the offsets
+`0 … Π(e_i+1) - 1` enumerate the divisors of `n = Π p_i^e_i` exactly once, and the pairing's offset loop is the inverse -/
+theorem offsets_enumerate_divisors_once (fs : List (Nat × Nat)) (hg : GoodF fs) :
+    (∀ off, off < prodL (radices fs) →
+        prodPow fs (lazyNth (radices fs) off) ∣ nOf fs ∧ hypEncode (prodPow fs (lazyNth (radices fs) off)) 1 fs = off) ∧
+    (∀ x, x ∣ nOf fs → ∃! off, off < prodL (radices fs) ∧ prodPow fs (lazyNth (radices fs) off) = x) := by
+  refine ⟨fun off h => ⟨(decode_spec fs hg off h).1, (decode_spec fs hg off h).2.2⟩, fun x hx => ?_⟩
+  obtain ⟨i1, i2⟩ := encode_spec fs hg x hx
+  refine ⟨hypEncode x 1 fs, ⟨i1, i2⟩, fun off ⟨h1, h2⟩ => ?_⟩
+  have := (decode_spec fs hg off h1).2.2
+  rw [h2] at this; exact this.symm
+
+example : GoodF [(2, 3), (3, 2), (5, 1)] ∧ nOf [(2, 3), (3, 2), (5, 1)] = 360 :=
+  ⟨⟨Nat.prime_two, by simp, Nat.prime_three, by simp, Nat.prime_five, by simp, trivial⟩, by decide⟩
+
+/-- block `n ≥ 1` of the enumeration has exactly `d(n) = Π(e_i+1)` indices -/
+theorem aN_block_size (n : Nat) (hn : 1 ≤ n) : aN n = aN (n - 1) + prodL (radices (factor n)) := aN_block n hn
+
+/-- **`HyperbolicPairing` is a bijection ℕ ↔ ℕ²** (model with exact inverse of `a_n` and exact factorisation):
+`pairing2d ∘ projection2d = id` for all naturals … -/
+theorem pair_proj_hyperbolic (z : Nat) : hypPair (hypProj z).1 (hypProj z).2 = z := hyp_pair_proj z
+
+/-- … and `projection2d ∘ pairing2d = id` for all pairs of naturals -/
+theorem proj_pair_hyperbolic (x y : Nat) : hypProj (hypPair x y) = (x, y) := hyp_proj_pair x y
+
+theorem hypPair_zero : hypPair 0 0 = 0 := by decide
+
+/-- `Pairing.pairing / projection(·, d)` (the base-class fold, which `HyperbolicPairing` inherits) with the hyperbolic
+pairing is a bijection ℕ ↔ ℕ^d for every d ≥ 1 -/
+theorem hyperbolic_ndBij (d : Nat) (hd : 1 ≤ d) : NdBij hyperbolic.pairN hyperbolic.projD d :=
+  hyperbolic.ndBij ⟨hyp_pair_proj, hyp_proj_pair⟩ hypPair_zero d hd
+
+/-- `PairingToZd(HyperbolicPairing(), d)`, zero omitted: every non-zero state of ℤ^d exactly once -/
+theorem zd_enumerates_nonzero_once_hyperbolic (d : Nat) (hd : 1 ≤ d) (v : List Int)
+    (hl : v.length = d) (hv : v ≠ List.replicate d 0) : ∃! i : Nat, zdProject hyperbolic.projD 1 d i = v :=
+  zd_exactly_once (hyperbolic_ndBij d hd) v hl hv
+
+/-! ## 10. `StatesManager.project_index_to_state_increment` for ARBITRARY call histories and the `max_logged` reset
+
+`smRunList adm bound maxLogged nxt xs` = the object with skip pointer `nxt` asked the history `xs`.
+`NoReset maxLogged xs`: no argument of the history equals `max_logged` (always true for the default `max_logged = -1`). -/
+
+/-- without reset, ANY history: the pointer advances by at least one per call; every returned index is admissible, below
+the bound, not below the start pointer; the returned indices are strictly increasing along the history -/
+theorem sm_history_invariant (adm : Nat → Bool) (bound : Nat) (maxLogged : Int) (xs : List Nat) (nxt : Nat)
+    (h : NoReset maxLogged xs) :
+    nxt + xs.length ≤ (smRunList adm bound maxLogged nxt xs).1 ∧
+    (∀ j, some j ∈ (smRunList adm bound maxLogged nxt xs).2 →
+      nxt ≤ j ∧ j < (smRunList adm bound maxLogged nxt xs).1 ∧ j < bound ∧ adm j = true) ∧
+    ((smRunList adm bound maxLogged nxt xs).2.filterMap id).Pairwise (· < ·) :=
+  smRunList_noreset_inv adm bound maxLogged xs nxt h
+
+/-- without reset no index is returned twice, whatever the history -/
+theorem sm_history_at_most_once (adm : Nat → Bool) (bound : Nat) (maxLogged : Int) (xs : List Nat) (nxt : Nat)
+    (h : NoReset maxLogged xs) (j : Nat) : (smRunList adm bound maxLogged nxt xs).2.count (some j) ≤ 1 :=
+  smRunList_noreset_count_le_one adm bound maxLogged xs nxt h j
+
+example : NoReset (-1) [3, 0, 7] := noReset_neg_one _
+
+/-- what one call answers (reset or not): the first admissible index in `[max x pointer, bound)`, else exhaustion -/
+theorem sm_call_first_admissible (adm : Nat → Bool) (bound : Nat) (maxLogged : Int) (nxt x j : Nat) :
+    (smStep adm bound maxLogged nxt x).2 = some j ↔
+      (max x (smPtr maxLogged nxt x) ≤ j ∧ j < bound ∧ adm j = true ∧
+        ∀ i, max x (smPtr maxLogged nxt x) ≤ i → i < j → adm i = false) :=
+  smStep_eq_some_iff adm bound maxLogged nxt x j
+
+/-- exhaustion is sticky without reset -/
+theorem sm_history_exhaustion_sticky (adm : Nat → Bool) (bound : Nat) (maxLogged : Int) (xs : List Nat) (nxt : Nat)
+    (h : NoReset maxLogged xs) (i k : Nat) (hik : i ≤ k) (hk : k < xs.length)
+    (hi : (smRunList adm bound maxLogged nxt xs).2[i]? = some none) :
+    (smRunList adm bound maxLogged nxt xs).2[k]? = some none :=
+  smRunList_none_sticky adm bound maxLogged xs nxt h i k hik hk hi
+
+/-- a history on a fresh object that never asks beyond the number of calls made so far (`x_k ≤ k`; this covers
+repetitions, going back, and every non-decreasing history without jumps: `sm_history_no_jump`) answers exactly like
+`0, 1, …, len-1`: all the theorems of section 8 transfer -/
+theorem sm_history_never_skipping (adm : Nat → Bool) (bound : Nat) (xs : List Nat)
+    (h : ∀ (k x : Nat), xs[k]? = some x → x ≤ k) :
+    smRunList adm bound (-1) 0 xs = smRun adm bound xs.length := smRunList_never_skipping adm bound xs h
+
+theorem sm_history_no_jump (adm : Nat → Bool) (bound : Nat) (xs : List Nat)
+    (h0 : ∀ x : Nat, xs[0]? = some x → x = 0)
+    (hs : ∀ (k x y : Nat), xs[k]? = some x → xs[k + 1]? = some y → y ≤ x + 1) :
+    smRunList adm bound (-1) 0 xs = smRun adm bound xs.length := smRunList_no_jump adm bound xs h0 hs
+
+example : smRunList (fun i => i % 2 == 0) 5 (-1) 0 [0, 0, 1, 3, 2] = smRun (fun i => i % 2 == 0) 5 5 := by decide
+
+/-- exactly once, then exhaustion, for never-skipping histories: when such a history has signalled exhaustion every
+admissible index below the bound has been returned exactly once -/
+theorem sm_history_never_skipping_complete (adm : Nat → Bool) (bound : Nat) (xs : List Nat)
+    (h : ∀ (k x : Nat), xs[k]? = some x → x ≤ k) (hn : none ∈ (smRunList adm bound (-1) 0 xs).2)
+    (j : Nat) (hb : j < bound) (ha : adm j = true) : (smRunList adm bound (-1) 0 xs).2.count (some j) = 1 :=
+  smRunList_never_skipping_complete adm bound xs h hn j hb ha
+
+/-- a call that asks beyond the pointer loses what it jumps over: an index below the argument of a call that was not
+returned before is never returned afterwards (no reset) -/
+theorem sm_history_skipped_lost (adm : Nat → Bool) (bound : Nat) (maxLogged : Int) (nxt x : Nat)
+    (pre xs : List Nat) (hnr : NoReset maxLogged (x :: xs)) (i : Nat) (hi : i < x)
+    (hpre : some i ∉ (smRunList adm bound maxLogged nxt pre).2) :
+    some i ∉ (smRunList adm bound maxLogged nxt (pre ++ x :: xs)).2 :=
+  smRunList_skipped_never_returned' adm bound maxLogged nxt x pre xs hnr i hi hpre
+
+/-- FULL STATEMENT THAT DOES NOT HOLD: "for every non-decreasing history on a fresh object every admissible index below
+the bound is returned exactly once before exhaustion".  Witness: everything admissible, bound 3, history 1, 2, 3, 4:
+answers 1, 2, exhausted, exhausted; index 0 is never returned. -/
+theorem sm_history_skip_witness :
+    (smRunList (fun _ => true) 3 (-1) 0 [1, 2, 3, 4]).2 = [some 1, some 2, none, none] ∧
+    (smRunList (fun _ => true) 3 (-1) 0 [1, 2, 3, 4]).2.count (some 0) = 0 ∧
+    none ∈ (smRunList (fun _ => true) 3 (-1) 0 [1, 2, 3, 4]).2 ∧
+    ¬ (∀ (adm : Nat → Bool) (bound : Nat) (xs : List Nat) (j : Nat),
+        xs.Pairwise (· ≤ ·) → none ∈ (smRunList adm bound (-1) 0 xs).2 → adm j = true → j < bound →
+        (smRunList adm bound (-1) 0 xs).2.count (some j) = 1) := sm_history_skip_counterexample
+
+/-- the reset: a call with `x = max_logged` (then calls without reset) answers like a FRESH object, whatever happened before -/
+theorem sm_reset_is_fresh (adm : Nat → Bool) (bound : Nat) (maxLogged : Int) (nxt x : Nat) (pre seg : List Nat)
+    (hx : (x : Int) = maxLogged) (hnr : NoReset maxLogged seg) :
+    (smRunList adm bound maxLogged nxt (pre ++ x :: seg)).2 =
+      (smRunList adm bound maxLogged nxt pre).2 ++ (smRunList adm bound (-1) 0 (x :: seg)).2 :=
+  smRunList_reset_segment adm bound maxLogged nxt x pre seg hx hnr
+
+/-- between two resets: strictly increasing, at most once, not below the reset argument -/
+theorem sm_reset_segment (adm : Nat → Bool) (bound : Nat) (maxLogged : Int) (nxt x : Nat)
+    (seg : List Nat) (hx : (x : Int) = maxLogged) (hnr : NoReset maxLogged seg) :
+    ((smRunList adm bound maxLogged nxt (x :: seg)).2.filterMap id).Pairwise (· < ·) ∧
+    (∀ j, (smRunList adm bound maxLogged nxt (x :: seg)).2.count (some j) ≤ 1) ∧
+    (∀ j, some j ∈ (smRunList adm bound maxLogged nxt (x :: seg)).2 → x ≤ j ∧ j < bound ∧ adm j = true) :=
+  smRunList_reset_segment_increasing adm bound maxLogged nxt x seg hx hnr
+
+example : ((2 : Nat) : Int) = 2 ∧ NoReset 2 [0, 3] := by
+  refine ⟨rfl, fun x hx => ?_⟩
+  simp only [List.mem_cons, List.not_mem_nil, or_false] at hx
+  rcases hx with rfl | rfl <;> decide
+
+/-- every history, resets included: whatever is returned is admissible, below the bound and not below the argument -/
+theorem sm_any_history_sound (adm : Nat → Bool) (bound : Nat) (maxLogged : Int) (xs : List Nat) (nxt k j : Nat)
+    (h : (smRunList adm bound maxLogged nxt xs).2[k]? = some (some j)) :
+    ∃ x, xs[k]? = some x ∧ x ≤ j ∧ j < bound ∧ adm j = true := smRunList_any_history adm bound maxLogged xs nxt k j h
+
+/-- FULL STATEMENTS THAT DO NOT HOLD once the reset is used: "no index is returned twice" and "exhaustion is sticky".
+Witnesses: everything admissible, `max_logged = 0`: bound 3, history 0, 1, 0 returns index 0 twice; bound 2, history
+0, 1, 2, 0 answers 0, 1, exhausted, 0. -/
+theorem sm_reset_witnesses :
+    (smRunList (fun _ => true) 3 0 0 [0, 1, 0] = (1, [some 0, some 1, some 0]) ∧
+     (smRunList (fun _ => true) 3 0 0 [0, 1, 0]).2.count (some 0) = 2) ∧
+    (smRunList (fun _ => true) 2 0 0 [0, 1, 2, 0]).2 = [some 0, some 1, none, some 0] :=
+  ⟨⟨sm_reset_repeats_counterexample.1, sm_reset_repeats_counterexample.2.1⟩, sm_reset_revives_counterexample⟩
+
+
+/-- the reset in the inversion sampler's call pattern (calls `0 … max_logged-1`, then `max_logged` once its storage is full,
+inversion.py:52-60): when an inadmissible index was skipped before, the reset call returns an index that was already
+returned.  Witness: odd indices inadmissible, `max_logged = 2`: calls 0, 1, 2 return indices 0, 2, 2. -/
+theorem sm_reset_sampler_pattern_witness :
+    (smRunList (fun i => i % 2 == 0) 10 2 0 [0, 1, 2]).2 = [some 0, some 2, some 2] := by decide
 
 end Rpylib.Pairing
